@@ -410,12 +410,8 @@ func (c *chain) ProcessBlock(b *massutil.Block) (bool, error) {
 		if h.PubKey != nil && string(h.PubKey.SerializeCompressed()) == string(c.pub.SerializeCompressed()) {
 			ev["k"] = ps.K
 			ev["proofok"] = dp != nil && dp.BL == bl && string(dp.X) == string(c.x) && string(dp.XPrime) == string(c.xp)
-			sigok := false
-			if ph, err := h.PoCHash(); err == nil && h.Signature != nil {
-				if sig, ok := h.Signature.(*pocec.Signature); ok {
-					sigok = sig.Verify(ph[:], c.pub)
-				}
-			}
+			// the chain's own check (signature over HashH(PoC hash) under the header's key, which is this proof's key)
+			sigok, _ := h.VerifySig()
 			ev["sigok"] = sigok
 		}
 	}
@@ -514,7 +510,8 @@ func (k *keeper) SignHash(sid string, hash [32]byte) (*pocec.Signature, error) {
 		ev["round"], ev["ms"], ev["off"] = r.idx, r.signMs, r.signOff
 	}
 	k.w.emit(ev)
-	return c.priv.Sign(hash[:])
+	mh := wire.HashH(hash[:]) // as the real wallet does (KeystoreManagerForPoC.SignMessage)
+	return c.priv.Sign(mh[:])
 }
 
 // ---------------------------------------------------------------- scenario
